@@ -845,7 +845,9 @@ func runC14(c *core.Case) {
 	for round := 0; round < rounds; round++ {
 		rel := c14Relations[(c.Index/2+round*5+c.Rng.IntN(2)*3)%len(c14Relations)]
 		// big batches are expensive: one per 8 cases in quick
-		if rel == "big-batch" && c.Tier != "thorough" && (c.Index%16 >= 4 || round != 0) {
+		if round == 0 && c.Index%16 < 2 {
+			rel = "big-batch"
+		} else if rel == "big-batch" && c.Tier != "thorough" {
 			rel = "behind"
 		}
 		hist = append(hist, rel)
